@@ -200,6 +200,7 @@ package bt
 //@   ensures[C10.nochange_only_when_dust] (=> (and (= err nil) (not r1) (not (nil? output)) (. output newOutput) (not (nil? (. output lockingScript)))) (<= (- (- (old (spec.sum_in tx)) (old (spec.sum_out tx))) (spec.quoted f (+ (old (spec.est_std tx)) (spec.new_output_bytes (len (. output lockingScript)) (old (len (. tx Outputs))))) (old (spec.est_data tx)))) 1))
 //@   ensures[C10.fee_left_new_output] (=> (and (= err nil) r1 (not (nil? output)) (. output newOutput) (not (nil? (. output lockingScript)))) (= (- (old (spec.sum_in tx)) (+ (old (spec.sum_out tx)) r0)) (spec.quoted f (+ (old (spec.est_std tx)) (spec.new_output_bytes (len (. output lockingScript)) (old (len (. tx Outputs))))) (old (spec.est_data tx)))))
 //@   ensures[C10.fee_left_existing_output] (=> (and (= err nil) r1 (nil? output)) (and (= (- (old (spec.sum_in tx)) (+ (old (spec.sum_out tx)) r0)) (spec.quoted f (old (spec.est_std tx)) (old (spec.est_data tx)))) (= (. tx Outputs) (old (. tx Outputs)))))
+//@   ensures[C10.existing_outputs_untouched] (=> (= err nil) (forall ((k Int)) (=> (and (<= 0 k) (< k (old (len (. tx Outputs))))) (and (= (at (. tx Outputs) k) (old (at (. tx Outputs) k))) (= (. (at (. tx Outputs) k) Satoshis) (old (. (at (. tx Outputs) k) Satoshis))) (= (. (at (. tx Outputs) k) LockingScript) (old (. (at (. tx Outputs) k) LockingScript)))))))
 //@   ensures[C10.outputs_stay_nonnil] (=> (and (= err nil) (or (nil? output) (not (. output newOutput)))) (spec.outputs_nonnil tx))
 //@   ensures[C10.change_output_appended] (=> (and (= err nil) r1 (not (nil? output)) (. output newOutput)) (and (= (len (. tx Outputs)) (+ (old (len (. tx Outputs))) 1)) (= (. (at (. tx Outputs) (old (len (. tx Outputs)))) Satoshis) r0) (= (. (at (. tx Outputs) (old (len (. tx Outputs)))) LockingScript) (. output lockingScript)) (forall ((k Int)) (=> (and (<= 0 k) (< k (old (len (. tx Outputs))))) (= (at (. tx Outputs) k) (old (at (. tx Outputs) k)))))))
 
